@@ -332,9 +332,12 @@ def handle (req impl : String) : String × String :=
           -- each line-wrap append with an empty text popped one more hyphen)
           let spAll := ref.runs.reverse.flatMap (fun r => runToks o.mh r r.length)
           let chain := o.mh && matchMulti cut spAll a.x && (!o.pl || matchMulti cut spAll a.f)
+          -- a listed open defect the reference run met comes first: a lost `/ActualText` replacement
+          -- that consists of hyphens only (`--`, C11-F1) also "disappears once every run-final hyphen
+          -- is optional" and is not a hyphen chain
           let lose (what : String) :=
-            if xOk && fOk && chain then "fail:quirk[hyphen-chain]"
-            else if xOk && fOk && !quirks.isEmpty then "fail:quirk[" ++ ",".intercalate quirks ++ "]"
+            if xOk && fOk && !quirks.isEmpty then "fail:quirk[" ++ ",".intercalate quirks ++ "]"
+            else if xOk && fOk && chain then "fail:quirk[hyphen-chain]"
             else what
           if !a.d then "fail:not-deterministic"
           else if !a.b then "fail:text-longer-than-max_extracted_bytes"
